@@ -213,3 +213,34 @@ Qed.
 
 Lemma tally_never_panics s : VInv s -> powers_nonneg (vs_staking s) -> exists s', tally s = Ok s'.
 Proof. intros HI Hp. destruct (tally_spec s HI Hp) as [s' [new [E _]]]. exists s'. exact E. Qed.
+
+(* ---------- EndBlocker: the expiry refunds cannot make it fail (after the fix: a refund that panics is dropped) ---------- *)
+Lemma refund_expired_list_ok chain l : forall st, exists s',
+  fold_left (fun r e =>
+               bind r (fun st =>
+               let total := conv_from_ext (st_tokens st) chain (s_ext e) (s_token e + s_fee e + s_comm e) in
+               if negb (fits256 (supply st (refund_denom st e) + total)) then Ok st
+               else
+               match cancel_send st chain (s_id e) (s_sender e) with
+               | Ok st' => Ok st'
+               | Err _ => Ok st
+               | Panic _ => Ok st
+               end)) l (Ok st) = Ok s'.
+Proof.
+  induction l as [|e l IH]; intro st; cbn [fold_left]; [exists st; reflexivity|].
+  cbn [bind]. cbv zeta. destruct (negb (fits256 _)); [apply IH|].
+  destruct (cancel_send st chain (s_id e) (s_sender e)); apply IH.
+Qed.
+
+Lemma refund_expired_chain_ok s chain : exists s', refund_expired_chain s chain = Ok s'.
+Proof. unfold refund_expired_chain. apply refund_expired_list_ok. Qed.
+
+Theorem end_block_never_fails s : exists s', end_block s = Ok s'.
+Proof.
+  unfold end_block.
+  assert (G : forall l st, exists s1,
+            fold_left (fun r chain => bind r (fun st => refund_expired_chain (apply_pending st chain) chain)) l (Ok st) = Ok s1).
+  { induction l as [|c l IH]; intro st; cbn [fold_left]; [exists st; reflexivity|].
+    cbn [bind]. destruct (refund_expired_chain_ok (apply_pending st c) c) as [s2 E]. rewrite E. apply IH. }
+  destruct (G (p_chains (st_params s)) s) as [s1 E]. rewrite E. cbn [bind]. eexists. reflexivity.
+Qed.
